@@ -3,7 +3,8 @@
 # run.sh build                                   -- builds all variants (setup_cmd)
 # run.sh replay <file>                           -- re-executes a recorded violation
 set -u
-VERIF=${VERIF_ROOT:-/verif}
+SELF=$(dirname "$(readlink -f "$0")")
+VERIF=${VERIF_ROOT:-$SELF}
 REPO=${VERIF_REPO:-/repo}
 GO=/root/go/pkg/mod/golang.org/toolchain@v0.0.1-go1.24.2.linux-amd64/bin/go
 [ -x "$GO" ] || GO=$(command -v go)
